@@ -696,6 +696,10 @@ def probe_plan():
         ("xar-shebang", mk(1, b"t", [mk(0, b"script", 1, size=12, segs=[(0, 12, 0, b"#!\x85\xad\x03\x7f\xbf\nrest")]),
                                      mk(0, b"other", 2, size=2, segs=[(0, 2, 5)])]),
          ["xar"], [], True, None),
+        ("iso9660-same-name-depth8",
+         mk(1, b"t", [mk(1, b"a", [mk(1, b"2", [mk(1, b"3", [mk(1, b"4", [mk(1, b"5", [mk(1, b"6", [mk(1, b"7", [mk(1, b"same", [mk(0, b"f1", 1, size=1, segs=[(0, 1, 1)])])])])])])])])]),
+                      mk(1, b"b", [mk(1, b"2", [mk(1, b"3", [mk(1, b"4", [mk(1, b"5", [mk(1, b"6", [mk(1, b"7", [mk(1, b"same", [mk(0, b"f2", 2, size=1, segs=[(0, 1, 2)])])])])])])])])])]),
+         ["iso9660"], [], True, None),
         ("c-locale-symlink", mk(1, b"t", [mk(2, b"lnk", "\u65e5\u672c".encode()), mk(0, b"f", 1, size=1, segs=[(0, 1, 3)])]),
          ["7zip"], [], False, {"LC_ALL": "C", "LANG": "C"}),
     ]
@@ -734,10 +738,22 @@ def run(rep):
              "sticky/setgid, symlinks incl. long and dangling targets, hard-link groups across directories, fifos, 255-byte and "
              "non-ASCII UTF-8 names, shell-special names, fixed mtimes with sub-second parts, user.* xattrs, one tree with a path "
              "beyond PATH_MAX); non-trivial = tree has at least one hard-link group, one symlink and three directories; each tree goes "
-             "through 4 CLI pipelines, bsdtar -t, 8 library formats, 6 walker policies and 4 resolver strategies",
+             "through 5 CLI pipelines (bsdtar default = restricted pax, --format pax, --format gnutar, default with -xS; find -depth | "
+             "bsdcpio -o -H newc | bsdcpio -idm), bsdtar -t, 8 library formats, 6 walker policies x 2 ways of calling "
+             "archive_read_disk_descend and 4 resolver strategies; plus hand-made probe trees (see probes)",
         samples=stats.get("cases_sample", []),
         traces_validated_against_impl=stats["corr"].get("agree", 0),
-        correspondence=stats["corr"], trees=stats["trees"], capability_table=CAPS,
+        correspondence=stats["corr"], trees=stats["trees"], capability_table=CAPS, cli_capability_table=CLI_CAPS,
+        capability_notes=["zip/7zip: hard links are stored as independent files; zip cannot hold fifos",
+                          "xar: the writer stores the permission bits only (no setuid/setgid/sticky); 1 s mtimes",
+                          "iso9660: written with rockridge=strict,!joliet (the default rockridge=useful normalises modes/owners, "
+                          "the Joliet tree refuses long paths); paths over 1000 bytes not run",
+                          "mtree: metadata only; read back with mtree:checkfs from the source directory; hard links become files",
+                          "gnutar/newc/zip/xar/iso9660: 1 s mtimes; 7zip: 100 ns; pax/mtree: 1 ns; bsdtar's default restricted pax: "
+                          "exact or truncated to 1 s (by design)",
+                          "the '.' entry (mode/mtime of the top directory) is compared for pax/gnutar/newc/mtree only",
+                          "bsdcpio and mtree are not given trees with paths over 4000 bytes (names are passed as paths)"],
+        options_not_varied="-P, --numeric-owner, symlink modes L/H, traversal filters (walker theorems quantify over the descend policy only)",
         sparse_layout_kept=stats["sparse"], skipped=stats["skipped"], library_roundtrips=stats["lib"],
         probes=stats.get("probes"), sanitizer_stops=stats.get("sanitizer_stops", 0), xattr_supported=ctx.xattr_ok, extract_flags="OWNER|PERM|TIME|ACL|FFLAGS|XATTR", locale="C.UTF-8",
         readdir_order="model is given each directory's children in the order the real readdir returned them (harness op 0)")
